@@ -27,7 +27,9 @@ def match_known(v, harness_name, known):
     for k in known:
         if k.get('status') != 'known':
             continue
-        m = k.get('match', {})
+        m = k.get('match')
+        if not m:
+            continue  # matched only through the in-harness symbolic predicate (known_hits)
         if m.get('harness') and m['harness'] != harness_name:
             continue
         if m.get('label') and not re.search(m['label'], v.get('label') or ''):
